@@ -73,7 +73,7 @@ let parse_out (s : string) : out =
   | [ now; wake; ex; pk; ev ] ->
     { o_now = n_of_dec now; o_wake = (if wake = "-" then None else Some (n_of_dec wake)); o_exited = (ex = "1");
       o_sent = (if pk = "-" then [] else List.map (fun p -> List.map parse_q (split_on '&' p)) (split_on '+' pk));
-      o_events = (if ev = "-" then [] else List.map parse_ev (split_on ',' ev)); o_hazard = false }
+      o_events = (if ev = "-" then [] else List.map parse_ev (split_on ',' ev)) }
   | _ -> failwith "out"
 let parse_trace (s : string) : out list = List.map parse_out (split_on ';' s)
 
@@ -86,9 +86,8 @@ let run_case (line : string) : string =
   string_of_trace (model_run t0 h)
 
 (* ---- monitors: the extracted checkers, i.e. the conclusions of the theorems in
-        Props/C19.v, C13.v, C12.v, applied to what the implementation did.  A history in which
-        the model's hazard flag rises (known finding C13-timeout-late-rerun) is outside the
-        theorems of C13 and C19; a rejection there is tagged so that the check can classify it. *)
+        Props/C19.v, C13.v, C12.v, applied to what the implementation did (the theorems hold
+        for every well-formed history; others are outside the quantifier). *)
 let run_monitor (id : string) (case : string list) (result : string) : string =
   if case = [ "sf" ] then
     (if result = "SF ok" then "PASS"
@@ -100,8 +99,7 @@ let run_monitor (id : string) (case : string list) (result : string) : string =
   if not (wf_hist t0 h) then "PASS outside-quantifier"
   else begin
     let tr = parse_trace result in
-    let tag = if hazard_free t0 h then "" else "[late-timeout]" in
-    let verdict ok why = if ok then "PASS" else "FAIL" ^ tag ^ " " ^ why in
+    let verdict ok why = if ok then "PASS" else "FAIL " ^ why in
     match id with
     | "C19" -> verdict (chk_C19 t0 h tr) "query times do not follow the back-off schedule"
     | "C13" -> verdict (chk_C13 t0 h tr) "channel protocol / silence after stop broken"
